@@ -11,11 +11,11 @@ from driver import Bounded, Property, Task
 CHUNKS = Bounded(
     "partitions_of_valid_streams_through_the_reader", "codec_fuzz",
     {"mode": "c03", "streams": 25, "partitions": 12, "two_cut_limit": 600},
-    {"mode": "c03", "streams": 300, "partitions": 40, "two_cut_limit": 100000},
+    {"mode": "c03", "streams": 1500, "partitions": 60, "two_cut_limit": 100000},
     "the real socket_read_task fed by a scripted reader: 3 small streams (1-2 frames, with 4 kinds of marker-free garbage "
-    "before / between frames) under every 1-cut partition and 600 (thorough: all) 2-cut partitions; 25 (300) random "
+    "before / between frames) under every 1-cut partition and 600 (thorough: all) 2-cut partitions; 25 (1500) random "
     "streams of 1-8 frames (session, application, custom type, group, 9 frames) with garbage between frames under 12 "
-    "(40) random multi-cut partitions each and under 1-byte reads; delivered raw frames == frames sent, in order, no "
+    "(60) random multi-cut partitions each and under 1-byte reads; delivered raw frames == frames sent, in order, no "
     "reader error")
 
 TASKS = [
